@@ -563,13 +563,10 @@ func (ex *Exec) shaTerm(n int, arg *Term) *Term {
 
 func (ex *Exec) sha256Of(in []Value) []Value {
 	emitConc := func(bs []byte) {
-		if len(bs) == 0 {
-			return
-		}
-		if len(bs) > 4096 {
-			// very long concrete inputs: only the length tag of the (literal)
-			// digest is recorded, which separates it from every digest of a
-			// shorter or longer input
+		if len(bs) == 0 || len(bs) > 4096 {
+			// empty and very long concrete inputs: only the length tag of the
+			// (literal) digest is recorded, which separates it from every
+			// digest of an input of another length
 			d := sha256.Sum256(bs)
 			lit := &Term{"#x" + hex.EncodeToString(d[:]), SBV(256)}
 			tag := UF("shalen", []Sort{SBV(256)}, SBV(32))
